@@ -12,8 +12,6 @@ import (
 	"encoding/json"
 	"fmt"
 	"os"
-	"os/exec"
-	"path/filepath"
 	"sort"
 	"strings"
 	"sync"
@@ -45,14 +43,29 @@ type C18Spec struct {
 	// Grid: a whole table of texts rendered through ONE texttable wrapper, again
 	// after every change made in place
 	Grid *C18Grid `json:"grid,omitempty"`
+	// Fails: the item's text method (String / Error / GoString, by Kind 1, 2, 3, 5)
+	// panics when it is called: Fails[0] while the cell is created (NewCell hands
+	// back no cell: nothing further happens), Fails[1+k] at the Update() after
+	// Next[k] (the caller recovers and goes on).  FailHow: 1 nil pointer
+	// dereference inside the method, 2 panic(string), 3 panic(error), 4 index
+	// out of range, 5 panic(struct value), 6 write to a nil map, 7 the item is a
+	// typed nil pointer of a type whose method has a value receiver
+	Fails   []bool `json:"fails,omitempty"`
+	FailHow int    `json:"fail_how,omitempty"`
+	// Pre: cells with these texts are made first, in the same (fresh) process;
+	// Vol: the same with a generated stream of texts
+	Pre  [][]byte `json:"pre,omitempty"`
+	PreQ []string `json:"pre_q,omitempty"`
+	Vol  *C18Vol  `json:"vol,omitempty"`
 }
 
 type C18GridOp struct {
-	Op string   `json:"op"`          // set: the item of cell (R,C) changes to T, then Update() on the cell from CellAt / Headers (R = -1: header); add: Row.Add of a cell with text T to row R; hdr: AddHeaders(H...)
-	R  int      `json:"r,omitempty"` // 0-based body row, -1 = the header
-	C  int      `json:"c,omitempty"` // 0-based column
-	T  []byte   `json:"t,omitempty"`
-	H  [][]byte `json:"h,omitempty"`
+	Op  string   `json:"op"`          // set: the item of cell (R,C) changes to T, then Update() on the cell from CellAt / Headers (R = -1: header); add: Row.Add of a cell with text T to row R; hdr: AddHeaders(H...); fail: the item of cell (R,C) starts to panic in String(), Update() on the cell (recovered), the item is healthy again
+	R   int      `json:"r,omitempty"` // 0-based body row, -1 = the header
+	C   int      `json:"c,omitempty"` // 0-based column
+	T   []byte   `json:"t,omitempty"`
+	H   [][]byte `json:"h,omitempty"`
+	How int      `json:"how,omitempty"` // fail: FailHow 1..6
 }
 
 type C18Grid struct {
@@ -108,9 +121,12 @@ func (st c18Stage) texts() []string {
 func c18RunGrid(g *C18Grid, dry bool) (stages []c18Stage, renders []string) {
 	// dry: only the record is kept (the case's input), nothing is built
 	t := tabular.New()
-	mk := func(text string) (interface{}, *objData) { return newObj(1, objData{s: text}) }
-	var hdata []*objData
-	var rdata [][]*objData
+	mk := func(text string) (interface{}, *c18Src) {
+		d := &c18Src{text: text}
+		return &c18PS{d}, d
+	}
+	var hdata []*c18Src
+	var rdata [][]*c18Src
 	cur := c18Stage{}
 	grow := func(n int) {
 		if n > cur.NCols {
@@ -119,7 +135,7 @@ func c18RunGrid(g *C18Grid, dry bool) (stages []c18Stage, renders []string) {
 	}
 	setHeaders := func(texts [][]byte) {
 		items := make([]interface{}, len(texts))
-		hdata = make([]*objData, len(texts))
+		hdata = make([]*c18Src, len(texts))
 		h := make([]string, len(texts))
 		for i, b := range texts {
 			items[i], hdata[i] = mk(string(b))
@@ -136,7 +152,7 @@ func c18RunGrid(g *C18Grid, dry bool) (stages []c18Stage, renders []string) {
 	}
 	for _, r := range g.Rows {
 		items := make([]interface{}, len(r))
-		ds := make([]*objData, len(r))
+		ds := make([]*c18Src, len(r))
 		txt := make([]string, len(r))
 		for i, b := range r {
 			items[i], ds[i] = mk(string(b))
@@ -176,7 +192,7 @@ func c18RunGrid(g *C18Grid, dry bool) (stages []c18Stage, renders []string) {
 					continue
 				}
 				if !dry {
-					hdata[op.C].s = string(op.T)
+					hdata[op.C].text = string(op.T)
 					(&t.Headers()[op.C]).Update()
 				}
 				(*cur.Header)[op.C] = string(op.T)
@@ -185,7 +201,7 @@ func c18RunGrid(g *C18Grid, dry bool) (stages []c18Stage, renders []string) {
 					continue
 				}
 				if !dry {
-					rdata[op.R][op.C].s = string(op.T)
+					rdata[op.R][op.C].text = string(op.T)
 					c, err := t.CellAt(tabular.CellLocation{Row: op.R + 1, Column: op.C + 1})
 					if err != nil {
 						panic("CellAt: " + err.Error())
@@ -207,6 +223,36 @@ func c18RunGrid(g *C18Grid, dry bool) (stages []c18Stage, renders []string) {
 			grow(len(cur.Rows[op.R]))
 		case "hdr":
 			setHeaders(op.H)
+		case "fail":
+			// the record does not change: an Update() cut short by the item leaves the cell as it was
+			how := op.How
+			if how < 1 || how > 6 {
+				how = 1
+			}
+			if op.R == -1 {
+				if cur.Header == nil || op.C < 0 || op.C >= len(*cur.Header) {
+					continue
+				}
+				if !dry {
+					hdata[op.C].how = how
+					hc := &t.Headers()[op.C]
+					c18Try(func() { hc.Update() })
+					hdata[op.C].how = 0
+				}
+			} else {
+				if op.R < 0 || op.R >= len(cur.Rows) || op.C < 0 || op.C >= len(cur.Rows[op.R]) {
+					continue
+				}
+				if !dry {
+					rdata[op.R][op.C].how = how
+					c, err := t.CellAt(tabular.CellLocation{Row: op.R + 1, Column: op.C + 1})
+					if err != nil {
+						panic("CellAt: " + err.Error())
+					}
+					c18Try(func() { c.Update() })
+					rdata[op.R][op.C].how = 0
+				}
+			}
 		default:
 			continue
 		}
@@ -277,6 +323,13 @@ type C18Obs struct {
 	Grid       []string     `json:"grid_rendered,omitempty"`
 	GridW      []c18LW      `json:"-"`
 	Sig        string       `json:"sig,omitempty"`
+	NoCell     bool         `json:"no_cell_came_into_existence,omitempty"`
+	Panicked   []bool       `json:"update_panicked,omitempty"`
+	// cells made after other cells: the text the observation is about, how its cell was made, how many cells the process made before
+	Subject  *string `json:"subject,omitempty"`
+	SubjectB []byte  `json:"subject_bytes,omitempty"`
+	Via      string  `json:"made_by,omitempty"`
+	Before   int     `json:"cells_made_before,omitempty"`
 }
 
 type c18LW struct {
@@ -308,8 +361,12 @@ func (o C18Obs) Coq() string {
 	for i, p := range o.GridW {
 		gw[i] = cqPair(cqStr(p.L), cqNat(p.W))
 	}
-	return fmt.Sprintf("(Ok (mkObs18 %s %s %s %s %s %s %s %s %s %s))", cqStrs(o.Lines), cqList(ms), o.Whole.Coq(), o.Long.Coq(),
-		o.Cell.Coq(), cqList(st), cqStr(o.Render), cqStr(o.RenderLast), cqStrs(o.Grid), cqList(gw))
+	pk := make([]string, len(o.Panicked))
+	for i, b := range o.Panicked {
+		pk[i] = cqBool(b)
+	}
+	return fmt.Sprintf("(Ok (mkObs18 %s %s %s %s %s %s %s %s %s %s %s %s))", cqStrs(o.Lines), cqList(ms), o.Whole.Coq(), o.Long.Coq(),
+		o.Cell.Coq(), cqList(st), cqStr(o.Render), cqStr(o.RenderLast), cqStrs(o.Grid), cqList(gw), cqBool(o.NoCell), cqList(pk))
 }
 
 // the item that carries s into the cell, and how to change its text
@@ -353,7 +410,10 @@ func c18Render(t tabular.Table) string {
 	return out
 }
 
-func c18Observe(sp C18Spec) (o C18Obs) {
+func c18Observe(sp C18Spec) (o C18Obs) { return c18ObserveWith(sp, nil) }
+
+// made != nil: the cell for s exists already (it was made in the course of the case's history)
+func c18ObserveWith(sp C18Spec, made *tabular.Cell) (o C18Obs) {
 	defer func() {
 		if r := recover(); r != nil {
 			o = C18Obs{Panic: fmt.Sprint(r)}
@@ -373,9 +433,26 @@ func c18Observe(sp C18Spec) (o C18Obs) {
 	o.Whole = m(s)
 	o.Long = meas{length.LongestLineBytes(s), length.LongestLineRunes(s), length.LongestLineCells(s)}
 	item, set := c18Item(s, kind)
+	setFail := func(bool) {}
+	failing := c18AnyFail(sp.Fails) || sp.FailHow != 0
+	if failing && (kind == 1 || kind == 2 || kind == 3 || kind == 5) {
+		item, set, setFail = c18FailItem(s, kind, sp.FailHow)
+	}
 	var c *tabular.Cell
 	var home tabular.Table
-	if kind == 5 {
+	if made != nil {
+		c = made
+	} else if c18Fail(sp.Fails, 0) && kind != 5 {
+		// the item's method fails right now: either the panic comes through and there is no cell, or there is one
+		setFail(true)
+		var nc tabular.Cell
+		if c18Try(func() { nc = tabular.NewCell(item) }) {
+			o.NoCell = true
+			o.Cell = C18CellObs{Lines: []string{}, LW: []int{}}
+			return o
+		}
+		c = &nc
+	} else if kind == 5 {
 		// the cell lives in a table and is reached through CellAt
 		home = tabular.New()
 		home.AddRowItems(item)
@@ -388,9 +465,16 @@ func c18Observe(sp C18Spec) (o C18Obs) {
 		c = &nc
 	}
 	o.Cell = c18ObserveCell(c)
-	for _, t := range sp.Next {
+	for k, t := range sp.Next {
 		set(string(t))
-		c.Update()
+		if c18Fail(sp.Fails, 1+k) {
+			setFail(true)
+			o.Panicked = append(o.Panicked, c18Try(func() { c.Update() }))
+		} else {
+			setFail(false)
+			c.Update()
+			o.Panicked = append(o.Panicked, false)
+		}
 		o.Steps = append(o.Steps, c18ObserveCell(c))
 	}
 	if home != nil {
@@ -504,57 +588,6 @@ func c18Concurrent(sp C18Spec, o *C18Obs) {
 	cw.Wait()
 	close(stop)
 	wg.Wait()
-}
-
-// c18InChild runs one case in a child process (this binary, -specs mode) and
-// hands back the observation it made: its Coq term and its description
-func c18InChild(spec json.RawMessage) (string, interface{}) {
-	crashed := func(why string) (string, interface{}) {
-		if len(why) > 600 {
-			why = why[:600]
-		}
-		return "Panic", C18Obs{Panic: "the measuring process died: " + why, Sig: "while-other-goroutines-measure"}
-	}
-	exe, err := os.Executable()
-	if err != nil {
-		panic("harness: os.Executable: " + err.Error())
-	}
-	dir, err := os.MkdirTemp("", "c18child")
-	if err != nil {
-		panic("harness: " + err.Error())
-	}
-	defer os.RemoveAll(dir)
-	sf := filepath.Join(dir, "specs.json")
-	if err := os.WriteFile(sf, mustJSON([]json.RawMessage{spec}), 0o644); err != nil {
-		panic("harness: " + err.Error())
-	}
-	cmd := exec.Command(exe, "C18", "-specs", sf, "-out", dir, "-keep-coq")
-	cmd.Env = append(os.Environ(), "C18_CHILD=1")
-	out, err := cmd.CombinedOutput()
-	if err != nil {
-		return crashed(err.Error() + ": " + string(out))
-	}
-	b, err := os.ReadFile(filepath.Join(dir, "cases.json"))
-	if err != nil {
-		return crashed("no result: " + err.Error())
-	}
-	var recs []struct {
-		Observed json.RawMessage `json:"observed"`
-		Coq      string          `json:"coq"`
-	}
-	if err := json.Unmarshal(b, &recs); err != nil || len(recs) != 1 {
-		return crashed("unreadable result")
-	}
-	// the term is "(input, observation)": the input is rebuilt by the caller
-	term := recs[0].Coq
-	i := strings.LastIndex(term, ", (Ok (mkObs18 ")
-	if i < 0 {
-		if strings.HasSuffix(term, ", Panic)") {
-			return "Panic", recs[0].Observed
-		}
-		return crashed("unexpected term")
-	}
-	return term[i+2 : len(term)-1], recs[0].Observed
 }
 
 // the harness's own line splitter (terminator semantics), used only to decide
@@ -771,6 +804,15 @@ func (sp C18Spec) key() string {
 	if sp.Grid != nil {
 		sb.Write(mustJSON(sp.Grid))
 	}
+	if len(sp.Fails) > 0 || sp.FailHow != 0 {
+		fmt.Fprintf(&sb, "\x00f%v:%d", sp.Fails, sp.FailHow)
+	}
+	for _, n := range sp.Pre {
+		fmt.Fprintf(&sb, "\x00<%s", n)
+	}
+	if sp.Vol != nil {
+		sb.Write(mustJSON(sp.Vol))
+	}
 	return sb.String()
 }
 
@@ -801,6 +843,18 @@ func (sp C18Spec) size() int {
 				n += 2 + len(t)
 			}
 		}
+	}
+	for _, f := range sp.Fails {
+		if f {
+			n += 2
+		}
+	}
+	n += sp.FailHow
+	for _, t := range sp.Pre {
+		n += 10 + len(t)
+	}
+	if v := sp.Vol; v != nil {
+		n += 2000 + (v.Hi - v.Lo)
 	}
 	return n + sp.Conc
 }
@@ -852,6 +906,11 @@ func c18RandGrid(r *RNG) C18Grid {
 		g.Rows = append(g.Rows, row)
 	}
 	for n := r.Intn(4); n > 0; n-- {
+		if r.Pct(15) {
+			// some cell's item fails while its cell is updated
+			g.Ops = append(g.Ops, C18GridOp{Op: "fail", R: r.Intn(len(g.Rows)+1) - 1, C: r.Intn(ncols), How: 1 + r.Intn(6)})
+			continue
+		}
 		switch r.Intn(4) {
 		case 0:
 			g.Ops = append(g.Ops, C18GridOp{Op: "add", R: r.Intn(len(g.Rows)), T: text()})
@@ -875,6 +934,12 @@ func c18RandGrid(r *RNG) C18Grid {
 
 func c18GridTags(g *C18Grid) []string {
 	tags := []string{"grid", fmt.Sprintf("grid-changes-in-place=%d", min(len(g.Ops), 3))}
+	for _, op := range g.Ops {
+		if op.Op == "fail" {
+			tags = append(tags, "grid-item-method-panics-at-update")
+			break
+		}
+	}
 	stages, _ := c18RunGrid(g, true)
 	shortMulti, empty := false, false
 	for _, st := range stages {
@@ -971,6 +1036,152 @@ func c18GridShrink(sp C18Spec) []C18Spec {
 	return out
 }
 
+// the Coq term of the case's input, for the text s the observation is about
+func c18InputTerm(sp C18Spec, s string) string {
+	strs := append([]string{s}, ownLines(s)...)
+	nexts := make([]string, len(sp.Next))
+	for i, t := range sp.Next {
+		nexts[i] = cqStr(string(t))
+		strs = append(strs, string(t))
+		strs = append(strs, ownLines(string(t))...)
+	}
+	var stageTerms []string
+	if sp.Grid != nil {
+		stages, _ := c18RunGrid(sp.Grid, true)
+		for _, st := range stages {
+			stageTerms = append(stageTerms, st.Coq())
+			for _, t := range st.texts() {
+				strs = append(strs, ownLines(t)...)
+			}
+		}
+	}
+	segTab, rwTab, cwTab := c18Oracle(strs)
+	decl, wide := 0, ""
+	if sp.RMode >= 3 {
+		decl, wide = c18Companions(s)
+	}
+	fails := make([]string, len(sp.Fails))
+	for i, f := range sp.Fails {
+		// a cell that lives in a table is created from the healthy item
+		fails[i] = cqBool(f && !(i == 0 && sp.Kind == 5))
+	}
+	return fmt.Sprintf("(mkIn18 %s %s %s %s %s %s %s %s %s %s %s)", cqStr(s), cqNat(sp.Kind), cqList(nexts), cqNat(sp.RMode), cqStr(wide), cqNat(decl), segTab, rwTab, cwTab, cqList(stageTerms), cqList(fails))
+}
+
+func c18CaseTags(sp C18Spec, s string) []string {
+	tags := append(c18Tags(s, sp.Kind), fmt.Sprintf("updates=%d", min(len(sp.Next), 4)), fmt.Sprintf("rmode=%d", sp.RMode))
+	if c18AsciiWidest(s) {
+		tags = append(tags, "widest-line-ascii-other-line-not")
+	}
+	if sp.Conc > 0 {
+		tags = append(tags, "concurrent-measuring")
+	}
+	if sp.Grid != nil {
+		tags = append(tags, c18GridTags(sp.Grid)...)
+	}
+	for i, t := range sp.Next {
+		prev := s
+		if i > 0 {
+			prev = string(sp.Next[i-1])
+		}
+		if len(t) == 0 && len(prev) > 0 && sp.Kind != 0 && sp.Kind != 4 {
+			tags = append(tags, "update-to-empty")
+			break
+		}
+	}
+	if c18Fail(sp.Fails, 0) {
+		tags = append(tags, "item-method-panics-at-creation")
+	}
+	if len(sp.Fails) > 1 && c18AnyFail(sp.Fails[1:]) {
+		tags = append(tags, "item-method-panics-at-update")
+		for k := 1; k+1 < len(sp.Fails); k++ {
+			if sp.Fails[k] && !sp.Fails[k+1] && k < len(sp.Next) {
+				tags = append(tags, "item-recovers-after-failed-update")
+				break
+			}
+		}
+	}
+	if c18AnyFail(sp.Fails) {
+		tags = append(tags, fmt.Sprintf("fail-how=%d", sp.FailHow))
+	}
+	if len(sp.Pre) > 0 {
+		tags = append(tags, "after-other-cells-in-this-process")
+	}
+	if v := sp.Vol; v != nil {
+		n := v.Hi - v.Lo
+		switch {
+		case n >= 100000:
+			tags = append(tags, "after>=100000-other-cells-in-this-process")
+		case n >= 1000:
+			tags = append(tags, "after>=1000-other-cells-in-this-process")
+		default:
+			tags = append(tags, "after-other-cells-in-this-process")
+		}
+		tags = append(tags, fmt.Sprintf("volume-family=%d", v.Fam))
+	}
+	return tags
+}
+
+func c18RunHere(sp C18Spec) CaseOut {
+	s := string(sp.S)
+	var o C18Obs
+	if sp.Vol != nil || len(sp.Pre) > 0 {
+		// the history first; the subject may be another text than sp.S
+		text, cell, via, before, deviates := c18PlayHistory(sp)
+		plain := C18Spec{S: []byte(text), Kind: via}
+		o = c18ObserveWith(plain, cell)
+		s = text
+		q := fmt.Sprintf("%q", text)
+		o.Subject, o.SubjectB, o.Before = &q, []byte(text), before
+		o.Via = []string{"NewCell(text)", "the text of a long-lived cell's item changed + Update()"}[via]
+		if deviates {
+			o.Sig = c18SigAfter
+		}
+		sp2 := sp
+		sp2.Kind = via
+		return CaseOut{
+			Coq:        cqPair(c18InputTerm(plain, s), o.Coq()),
+			Desc:       o,
+			Size:       sp.size(),
+			Tags:       c18CaseTags(sp2, s),
+			Key:        sp.key(),
+			Nontrivial: len(s) > 0,
+		}
+	}
+	o = c18Observe(sp)
+	return CaseOut{
+		Coq:        cqPair(c18InputTerm(sp, s), o.Coq()),
+		Desc:       o,
+		Size:       sp.size(),
+		Tags:       c18CaseTags(sp, s),
+		Key:        sp.key(),
+		Nontrivial: len(s) > 0,
+	}
+}
+
+func c18RunInChild(spec json.RawMessage, sp C18Spec) CaseOut {
+	rec, why := c18ChildFor(spec, sp)
+	if rec == nil {
+		if len(why) > 600 {
+			why = why[:600]
+		}
+		sig := "while-other-goroutines-measure"
+		if sp.Conc == 0 {
+			sig = c18SigAfter
+		}
+		s := string(sp.S)
+		return CaseOut{
+			Coq:        cqPair(c18InputTerm(C18Spec{S: sp.S, Kind: sp.Kind}, s), "Panic"),
+			Desc:       C18Obs{Panic: "the measuring process died: " + why, Sig: sig},
+			Size:       sp.size(),
+			Tags:       c18CaseTags(sp, s),
+			Key:        sp.key(),
+			Nontrivial: true,
+		}
+	}
+	return CaseOut{Coq: rec.Coq, Desc: rec.Observed, Size: rec.Size, Tags: rec.Tags, Key: sp.key(), Nontrivial: rec.Nontrivial}
+}
+
 func init() {
 	register(&Prop{
 		ID:       "C18",
@@ -983,11 +1194,13 @@ func init() {
 			"for the mutable item kinds the text is then taken through a chain (-> empty, -> longer with more lines, -> shorter, -> more lines, -> fewer lines, -> empty) with Update() and the same reads after every step; " +
 			"render probe: the item as the only body (or header) cell of a table, or in a one-column table together with a wider ASCII text and a twin item with the same text that declares its own display width (three orders), rendered by texttable with the ascii-simple decoration, the bytes compared with rules of width+2 dashes and content lines padded by width - StringCells(line) (for the table-held cell also after the last Update); " +
 			"a few multi-line strings are measured repeatedly while 8-32 other goroutines measure other multi-line strings; " +
+			"failing items: the item's own String / Error / GoString panics at the moment the cell calls it (nil pointer dereference inside the method, panic with a string / an error / a struct value, index out of range, write to a nil map, and a typed nil pointer of a type whose method has a value receiver) - while the cell is created (either the panic reaches the caller and no cell exists, or the cell that exists must be consistent) and at Update() calls in the life of a long-lived cell (every pattern of failing and healthy calls over three updates with the text growing and shrinking in between; the caller recovers, and after EVERY call, completed or cut short, Height = len(Lines) and TerminalCellWidth = widest line of what String() shows now; for the table-held cell the table is rendered afterwards), and the same inside whole tables of the grid probe (a cell's item fails during Update(), the table is rendered again through the same wrapper and must show exactly what it showed before); " +
+			"cells made after other cells of the same process: short sequences of texts a shortcut keyed by less than the whole text would confuse (equal length with equal head and tail, the same bytes in another order with the line breaks moved, equal length and rune count with another width, one byte changed), each sequence in a fresh process, and a volume stream - 12 (quick) / 16 (thorough) fresh processes make 200,000 (1,000,000) cells each for pairwise distinct texts of equal byte length and widely differing display widths and line counts (three families: units of 2, 3 and 4 bytes), half of them through NewCell only, half with every fourth text going through one long-lived cell (item changed + Update()); every cell is compared on the spot with the lines of its own text (length.StringCells per line), the first one that deviates (else one more cell after the stream) is the case that is shipped and judged; on a deviation the earlier cell that is to blame is located by bisection with fresh processes and the replay is the pair of texts; " +
 			"grid probe: whole tables of texts (1-4 columns, with and without headers, full, short and empty rows, multi-line cells in short rows) rendered through ONE texttable wrapper, and again after every change made in place (a cell's item changed + Update() via CellAt / Headers, Row.Add to a row already in the table, the headers replaced by as many new ones); every rendering is compared with the layout computed from length.StringCells per line: column width = widest cell of the column, every cell line padded to it; " +
 			"every string of up to 4 (quick) or 5 (thorough) symbols over {LF, 'a', U+4E16 (3 bytes, double width), U+0301 (combining), byte 0xFF}, multi-line strings whose widest line is plain ASCII next to a shorter line with multi-byte / wide / combining / zero-width characters, and random strings up to ~30 bytes over " +
 			"CJK, combining marks, ZWJ emoji sequences, VS16, regional indicators, tabs, CR, CRLF, NUL, DEL, soft hyphen and ill-formed UTF-8 (truncated, overlong, surrogate, > U+10FFFF, stray continuation), with leading/repeated/trailing newlines; " +
 			"grapheme clusters and rune widths of every string measured and of each of its lines are taken from the real uniseg / go-runewidth and the three oracle assumptions are checked on them; " +
-			"a case is non-trivial when the string is not empty; distinct = distinct (string, item kind, update chain, render mode)",
+			"a case is non-trivial when the string is not empty; distinct = distinct (string, item kind, update chain, failure pattern, render mode, history)",
 		Exhaustive: "all strings of length <= 4 (quick: 781) / <= 5 (thorough: 3906) over the 5-symbol alphabet stored as a string and rendered as a body cell, and all of length <= 3 also in the five other item kinds (rendered as a header cell; the six-step update chain for the Stringer kinds, and for the error / GoStringer kinds up to length 2)",
 		Gen: func(r *RNG, tier string) []json.RawMessage {
 			var out []json.RawMessage
@@ -1094,6 +1307,11 @@ func init() {
 				{{Op: "set", R: -1, C: 1, T: []byte("heading grew")}},
 				{{Op: "hdr", H: bs("H", "second heading")}, {Op: "set", R: 0, C: 0, T: []byte("wider cell")}, {Op: "add", R: 1, T: []byte("z")}},
 				{{Op: "set", R: 0, C: 0, T: []byte("wide wide wide")}, {Op: "set", R: 0, C: 0, T: []byte("a")}},
+				{{Op: "fail", R: 0, C: 0, How: 1}},
+				{{Op: "fail", R: 0, C: 1, How: 2}, {Op: "set", R: 0, C: 1, T: []byte("healthy again and wider")}},
+				{{Op: "set", R: 1, C: 0, T: []byte("two\nlines")}, {Op: "fail", R: 1, C: 0, How: 3}, {Op: "fail", R: 1, C: 0, How: 4}},
+				{{Op: "fail", R: -1, C: 0, How: 5}, {Op: "add", R: 1, T: []byte("x")}},
+				{{Op: "fail", R: -1, C: 1, How: 6}, {Op: "set", R: -1, C: 1, T: []byte("")}},
 			}
 			for _, ops := range opSeqs {
 				for _, wh := range []bool{true, false} {
@@ -1150,7 +1368,29 @@ func init() {
 				if r.Pct(10) {
 					rmode = 0
 				}
-				add(c18SpecFull(s, kind, next, rmode))
+				sp := c18SpecFull(s, kind, next, rmode)
+				if (kind == 1 || kind == 2 || kind == 3 || kind == 5) && r.Pct(25) {
+					// the item's text method fails at some of the calls
+					sp.RMode = 0
+					sp.FailHow = 1 + r.Intn(6)
+					sp.Fails = make([]bool, 1+len(next))
+					for k := 1; k < len(sp.Fails); k++ {
+						sp.Fails[k] = r.Pct(50)
+					}
+					if kind != 5 && r.Pct(15) {
+						sp.Fails[0] = true
+						if r.Pct(40) {
+							sp.FailHow = 7
+						}
+					}
+				}
+				add(sp)
+			}
+			for _, sp := range c18GenFailing(tier) {
+				add(sp)
+			}
+			for _, sp := range c18GenHistories(r, tier) {
+				add(sp)
 			}
 			return out
 		},
@@ -1159,69 +1399,13 @@ func init() {
 			if err := json.Unmarshal(spec, &sp); err != nil {
 				panic(err)
 			}
-			s := string(sp.S)
-			var o C18Obs
-			var desc interface{}
-			obsCoq := ""
-			if sp.Conc > 0 && os.Getenv("C18_CHILD") == "" {
+			if (sp.Conc > 0 || sp.Vol != nil || len(sp.Pre) > 0) && os.Getenv("C18_CHILD") == "" {
 				// a data race inside the library can take the whole process down
-				// (torn string headers): measure in a child, a crash is an observation
-				obsCoq, desc = c18InChild(spec)
-			} else {
-				o = c18Observe(sp)
-				obsCoq, desc = o.Coq(), o
+				// (torn string headers), and what a process has measured before is part
+				// of a history case: run it in a child of its own
+				return c18RunInChild(spec, sp)
 			}
-			strs := append([]string{s}, ownLines(s)...)
-			nexts := make([]string, len(sp.Next))
-			for i, t := range sp.Next {
-				nexts[i] = cqStr(string(t))
-				strs = append(strs, string(t))
-				strs = append(strs, ownLines(string(t))...)
-			}
-			var stageTerms []string
-			if sp.Grid != nil {
-				stages, _ := c18RunGrid(sp.Grid, true)
-				for _, st := range stages {
-					stageTerms = append(stageTerms, st.Coq())
-					for _, t := range st.texts() {
-						strs = append(strs, ownLines(t)...)
-					}
-				}
-			}
-			segTab, rwTab, cwTab := c18Oracle(strs)
-			decl, wide := 0, ""
-			if sp.RMode >= 3 {
-				decl, wide = c18Companions(s)
-			}
-			in := fmt.Sprintf("(mkIn18 %s %s %s %s %s %s %s %s %s %s)", cqStr(s), cqNat(sp.Kind), cqList(nexts), cqNat(sp.RMode), cqStr(wide), cqNat(decl), segTab, rwTab, cwTab, cqList(stageTerms))
-			tags := append(c18Tags(s, sp.Kind), fmt.Sprintf("updates=%d", min(len(sp.Next), 4)), fmt.Sprintf("rmode=%d", sp.RMode))
-			if c18AsciiWidest(s) {
-				tags = append(tags, "widest-line-ascii-other-line-not")
-			}
-			if sp.Conc > 0 {
-				tags = append(tags, "concurrent-measuring")
-			}
-			if sp.Grid != nil {
-				tags = append(tags, c18GridTags(sp.Grid)...)
-			}
-			for i, t := range sp.Next {
-				prev := s
-				if i > 0 {
-					prev = string(sp.Next[i-1])
-				}
-				if len(t) == 0 && len(prev) > 0 && sp.Kind != 0 && sp.Kind != 4 {
-					tags = append(tags, "update-to-empty")
-					break
-				}
-			}
-			return CaseOut{
-				Coq:        cqPair(in, obsCoq),
-				Desc:       desc,
-				Size:       sp.size(),
-				Tags:       tags,
-				Key:        sp.key(),
-				Nontrivial: len(s) > 0,
-			}
+			return c18RunHere(sp)
 		},
 		Shrink: func(spec json.RawMessage) []json.RawMessage {
 			var sp C18Spec
@@ -1236,15 +1420,59 @@ func init() {
 				}
 				return out
 			}
+			if sp.Vol != nil {
+				// which earlier cell is to blame: probes in fresh processes
+				for _, c := range c18Locate(sp) {
+					add(c)
+				}
+				return out
+			}
+			if len(sp.Pre) > 0 {
+				for i := range sp.Pre {
+					c := sp
+					c.Pre = append(append([][]byte{}, sp.Pre[:i]...), sp.Pre[i+1:]...)
+					c.PreQ = nil
+					for _, t := range c.Pre {
+						c.PreQ = append(c.PreQ, fmt.Sprintf("%q", t))
+					}
+					add(c)
+				}
+				return out
+			}
 			s := string(sp.S)
+			dropFail := func(fs []bool, k int) []bool { // without entry k
+				if k >= len(fs) {
+					return fs
+				}
+				return append(append([]bool{}, fs[:k]...), fs[k+1:]...)
+			}
+			if c18AnyFail(sp.Fails) {
+				if sp.FailHow > 1 && sp.FailHow != 7 {
+					c := sp
+					c.FailHow = 1
+					add(c)
+				}
+				for k, f := range sp.Fails {
+					if f {
+						c := sp
+						c.Fails = append([]bool{}, sp.Fails...)
+						c.Fails[k] = false
+						add(c)
+					}
+				}
+			}
 			if len(sp.Next) > 0 {
 				c := sp
 				c.Next, c.NextQ = nil, nil
+				if len(c.Fails) > 1 {
+					c.Fails = c.Fails[:1]
+				}
 				add(c)
 				for i := range sp.Next {
 					c := sp
 					c.Next = append(append([][]byte{}, sp.Next[:i]...), sp.Next[i+1:]...)
 					c.NextQ = nil
+					c.Fails = dropFail(sp.Fails, 1+i)
 					add(c)
 					if len(sp.Next[i]) > 1 {
 						c := sp
